@@ -14,7 +14,9 @@ From GA.Proofs Require Import ContainerProofs.
    length.  It holds in every state reachable from an empty container by any
    finite history of the covered operations (AddSequence under the three
    policies, IgnoreIdentical, Append, AppendSeqIdentifier, Rename, RenameRegexp
-   with a literal pattern, CleanNames, Sort, Clear). *)
+   with a literal pattern, CleanNames, TrimNames with any caller map,
+   TrimNamesAuto, Sort, ShuffleSequences with any draws, SetSequenceChar, Clone,
+   Clear); FilterLength and Sample are exercised by the correspondence only. *)
 Theorem C01_invariant_all_histories :
   forall h kind alpha, forallb covered h = true -> Inv (run h (empty_state kind alpha)).
 Proof. intros h kind alpha Hc. apply run_inv; [exact Hc | apply Inv_empty]. Qed.
@@ -98,3 +100,9 @@ Example C01_nonvacuous :
   get_by_name (run h (empty_state true NUCLEOTIDS)) [x62] = Some [x41; x43] /\
   get_by_name (run h (empty_state true NUCLEOTIDS)) [x61] = None.
 Proof. repeat split; vm_compute; reflexivity. Qed.
+
+(* shuffling only re-orders, whatever the draws *)
+Theorem C01_shuffle_is_permutation :
+  forall draws n l, Permutation (shuffle_objs draws n l) l.
+Proof. exact shuffle_objs_perm. Qed.
+Print Assumptions C01_shuffle_is_permutation.
